@@ -52,7 +52,7 @@ ASSUMPTIONS = [
     "real workbooks (edge for every needed address)",
 ]
 
-@known_predicate('C04-bounded-range-built-twice')
+# repaired in /repo b9ea5fb: no longer a registered predicate (a recurrence is reported)
 def _built_twice(case):
     """=SUM(A1:A4) compiled before =SUM(A:A) (A:A stands for A1:A4): _make_cells builds the _CellRange A1:A4 a second
     time for the unbounded reference and replaces it in cell_map; the dependant that named A1:A4 keeps its edge from
